@@ -8,6 +8,7 @@ from montepy.cells import Cells
 from montepy.errors import *
 from montepy.constants import DEFAULT_VERSION
 from montepy.materials import Materials
+from montepy.particle import Particle
 from montepy.surfaces import surface_builder
 from montepy.surface_collection import Surfaces
 from montepy.data_inputs import Material, parse_data
@@ -461,12 +462,19 @@ class MCNP_Problem:
             objects_list = []
             if self.message:
                 objects_list.append(([self.message], False))
+            data_inputs = list(self.data_inputs)
+            # a problem read without a MODE input has a Mode object that is not one of its data inputs:
+            # it is written once it says something else than MCNP's default (neutrons only)
+            if not any(input is self._mode for input in data_inputs) and (
+                self._mode.particles != {Particle.NEUTRON}
+            ):
+                data_inputs.append(self._mode)
             objects_list += [
                 ([self.title], False),
                 (self.cells, True),
                 (self.surfaces, True),
                 # the data block is terminated below, after the cell modifiers that go to it
-                (self.data_inputs, False),
+                (data_inputs, False),
             ]
 
             def tag_new_warnings(obj, lines):
